@@ -23,10 +23,16 @@ func parseEvArg(ver, arg string) (gmsl.PDU, error) {
 	return v.NewEventFromTrustedJSONWithEventID(id, js, false)
 }
 
+// overrides for the directed scenarios of `allowed_nilq` (nil / negative = none): the sender of the event under test and
+// the roll that selects its class
+var authSenderOverride *string
+var authKindOverride = -1
+
 // auth.allowed <ver> <sig3pid> <event> <authevent>...
 func execAuth(op string, args []string) string {
 	switch op {
-	case "allowed":
+	// allowed_nilq: the same check asked with NilQuerier (area_fuzz.go): (nil, nil) for a sender that is not a user ID
+	case "allowed", "allowed_nilq":
 		ver := args[0]
 		ev, err := parseEvArg(ver, args[2])
 		if err != nil {
@@ -43,6 +49,9 @@ func execAuth(op string, args []string) string {
 		prov, err := gmsl.NewAuthEvents(auth)
 		if err != nil {
 			return "err:provider"
+		}
+		if op == "allowed_nilq" {
+			return coarse(gmsl.Allowed(ev, prov, NilQuerier))
 		}
 		return coarse(gmsl.Allowed(ev, prov, StdQuerier))
 	}
@@ -484,11 +493,18 @@ func genAuthScenario(r *Rng, ver string) *AuthScenario {
 			}
 		}
 	}
+	if authSenderOverride != nil {
+		sender = *authSenderOverride
+	}
 	prev := []string{"$prev:hs1"}
 	if r.Chance(10) {
 		prev = []string{create.ID}
 	}
-	switch k := r.Intn(100); {
+	kindRoll := r.Intn(100)
+	if authKindOverride >= 0 {
+		kindRoll = authKindOverride
+	}
+	switch k := kindRoll; {
 	case k < 40: // membership change
 		target := Pick(r, authUsers)
 		if r.Chance(45) {
@@ -746,4 +762,37 @@ func genAuth(o *Out, tier string, r *Rng) {
 		}
 	}
 	genAuthSpace(o, tier, r) // C07: named witnesses + bounded-exhaustive membership rule space (gen_authspace.go)
+	// C18 / C07 (second audit round): the check asked with a querier that answers (nil, nil) — no user, no error — for a
+	// sender that is not a user ID (what a pseudo-ID homeserver's querier does for a key it does not know).  Two thirds of
+	// the scenarios have such a sender (the empty string, a base64 key, a localpart alone, …), most of those are create /
+	// aliases events (the two checks that look the sender up before anything else); the rest are the ordinary scenarios.
+	nq := 600
+	if tier == "thorough" {
+		nq = 20000
+	}
+	for i := 0; i < nq; i++ {
+		ver := Pick(r, allVersions)
+		if r.Chance(25) {
+			ver = "org.matrix.msc4014"
+		}
+		if r.Chance(66) {
+			authSenderOverride = sp(Pick(r, []string{"", "Zm9v", "notauser", "@nodomain", "abc:def", "@:hs1", "@x:bad domain", "AAAAAAAAAAAAAAAAAAAAAAAAAAAAAAAAAAAAAAAAAAA"}))
+			if r.Chance(70) {
+				authKindOverride = Pick(r, []int{62, 65, 69, 70, 73, 75}) // create, aliases
+			}
+		}
+		s := genAuthScenario(r, ver)
+		bad := authSenderOverride != nil
+		authSenderOverride, authKindOverride = nil, -1
+		if s == nil {
+			o.Count("construct-refused")
+			continue
+		}
+		res := o.Do("allowed_nilq", s.Args()...)
+		if bad {
+			o.Count("nilq.sender-not-a-user-id." + s.Label + "." + res)
+		} else {
+			o.Count("nilq.ordinary." + s.Label + "." + res)
+		}
+	}
 }
